@@ -70,7 +70,10 @@ func buildC16(tier string, seed int64) *Family {
 		in.ID = "regexp over nodes: " + in.ID
 		insts = append(insts, in)
 	}
-	for _, x := range []string{"matches(a, string(@a))", "matches('1x1', string(a))", "replace(a, @a, 'y')", "replace('1x1', a, '[$0]')", "replace(a, '(1)', '$1$1')", "matches(*, '1$')"} {
+	for _, x := range []string{"matches(a, string(@a))", "matches('1x1', string(a))", "replace(a, @a, 'y')", "replace('1x1', a, '[$0]')", "replace(a, '(1)', '$1$1')", "matches(*, '1$')",
+		// group references with patterns of 0, 1 and 2 groups on concrete subjects
+		"replace('abc', 'b', '[$0]')", "replace('aXbX', 'X', '$0$0')", "replace(a, '1', '<$0>')", "replace('abc', '(b)', '[$1$0]')", "replace('abcd', '(b)(c)', '$2$1')", "replace(a, 'x|1', '$0$0')",
+		"replace('abc', 'b', 'a$1c')", "replace('abc', '', '-')"} {
 		in := valueInst(x, rcfg)
 		in.ID = "regexp over nodes: " + in.ID
 		insts = append(insts, in)
